@@ -7,7 +7,7 @@ import numpy as np
 from hypothesis import strategies as st
 
 from .. import env
-from ..core import require, must_return
+from ..core import require, must_return, as_int_kind
 
 env.import_phylib()
 from phylib.io.array import SpikeSelector  # noqa: E402
@@ -81,13 +81,32 @@ def _case(draw):
         })
     return {'bounds': bounds_out, 'times': times, 'clusters': clusters, 'nkept': nkept,
             'calls': calls, 'np_seed': draw(st.integers(0, 2 ** 31 - 1)),
-            'array_bounds': draw(st.booleans())}
+            'array_bounds': draw(st.booleans()), 'kinds': draw(st.integers(0, 7))}
 
 
 def _big_cases(th):
     # clusters of tens of thousands of spikes of which only a few are eligible
     for i, n in enumerate([30000] + ([10001, 200000, 1500000] if th else [])):
         yield {'k': 'big', 'n': n, 'seed': 17 + i}
+
+
+def _grid_cases(th):
+    # long chunk grids with the kept-chunk count handed over as a narrow NumPy integer
+    for nchunks, nkept, dt in [(200, 100, 'uint8'), (120, 20, 'int8'), (30000, 3000, 'int16')] + (
+            [(250, 7, 'uint8'), (127, 127, 'int8'), (65000, 600, 'uint16'), (200, 100, 'int64')]
+            if th else []):
+        yield {'k': 'grid', 'nchunks': nchunks, 'nkept': nkept, 'nkept_dtype': dt}
+
+
+def _expand_grid(par):
+    n = par['nchunks']
+    times = list(range(0, n))[:2000] if n <= 2000 else list(range(0, n, n // 2000))
+    return {'bounds': list(range(0, n + 1)), 'times': times,
+            'clusters': [[0, 1, 3][i % 3] for i in range(len(times))], 'nkept': par['nkept'],
+            'nkept_dtype': par['nkept_dtype'],
+            'calls': [{'n': 5, 'cids': [0, 3], 'sc': True, 'ss': None},
+                      {'n': None, 'cids': [1], 'sc': True, 'ss': None}],
+            'np_seed': n, 'array_bounds': True}
 
 
 def _expand_big(par):
@@ -111,7 +130,10 @@ def _expand_big(par):
 def drivers(tier):
     th = tier == 'thorough'
     from . import c17_model
-    return [dict(kind='enum', name='big', exhaustive=False,
+    return [dict(kind='enum', name='grid', exhaustive=False,
+                 bound='grids of 120..30 000 chunks, kept-chunk count as uint8 / int8 / int16',
+                 cases=lambda: _grid_cases(th)),
+            dict(kind='enum', name='big', exhaustive=False,
                  bound='one cluster of 30 000 (thorough: up to 1 500 000) spikes, few eligible',
                  cases=lambda: _big_cases(th)),dict(kind='hyp', name='selector', strategy=_case(), examples=300000 if th else 25000),
             dict(kind='hyp', name='model', strategy=c17_model.strategy(),
@@ -124,6 +146,8 @@ def check(case):
         return c17_model.check(case)
     if case.get('k') == 'big':
         case = _expand_big(case)
+    if case.get('k') == 'grid':
+        case = _expand_grid(case)
     bounds, times, clusters = case['bounds'], case['times'], case['clusters']
     nkept = case['nkept']
     n = len(times)
@@ -135,7 +159,10 @@ def check(case):
     cb = np.array(bounds) if case['array_bounds'] else list(bounds)
     sel = must_return('SpikeSelector()', SpikeSelector,
                       get_spikes_per_cluster=lambda c: np.array(spc.get(int(c), []), dtype=np.int64),
-                      spike_times=tarr, chunk_bounds=cb, n_chunks_kept=nkept)
+                      spike_times=tarr, chunk_bounds=cb,
+                      n_chunks_kept=(np.dtype(case['nkept_dtype']).type(nkept)
+                                     if 'nkept_dtype' in case else
+                                     as_int_kind(nkept, case.get('kinds', 0))))
     # kept chunks
     n_chunks = len(bounds) - 1
     stride = max(1, int(ceil(n_chunks / nkept)))
@@ -157,7 +184,8 @@ def check(case):
     for ci, call in enumerate(case['calls']):
         np.random.seed((case['np_seed'] + ci) % (2 ** 32))
         ss = None if call['ss'] is None else np.array(call['ss'], dtype=np.int64)
-        out = must_return('SpikeSelector.__call__', sel, call['n'], list(call['cids']),
+        cnt = call['n'] if call['n'] is None else as_int_kind(call['n'], case.get('kinds', 0) + ci)
+        out = must_return('SpikeSelector.__call__', sel, cnt, list(call['cids']),
                           subset_chunks=call['sc'], subset_spikes=ss)
         out = np.asarray(out)
         require(out.ndim == 1 and out.dtype.kind in 'iu', 'selection is not an integer vector',
@@ -196,6 +224,8 @@ def classify(case, info):
     if case.get('k') == 'model':
         from . import c17_model
         return c17_model.classify(case, info)
+    if case.get('k') == 'grid':
+        return ['grid:%d-chunks-kept-count-as-%s' % (case['nchunks'], case['nkept_dtype'])], True
     if case.get('k') == 'big':
         return ['big:%d-spikes-in-one-cluster' % case['n'], 'sparse-eligibility'], True
     labels = []
